@@ -132,7 +132,8 @@ def tlc(module, cfg=None, workdir=None, workers=8, timeout=900, simulate=None, d
     PrintT(ToJson(..)) are decoded; if json_out is a path they are streamed
     there (one JSON document per line) instead of being kept in memory."""
     os.makedirs(WORK, exist_ok=True)
-    tag = f"{module}-{os.getpid()}-{int(time.time() * 1000) % 100000000}"
+    import uuid
+    tag = f"{module}-{os.getpid()}-{uuid.uuid4().hex[:12]}"
     meta = os.path.join(workdir or WORK, "tlc-" + tag)
     cfg = cfg or (module + ".cfg")
     cmd = ["java", "-XX:+UseParallelGC", f"-XX:ParallelGCThreads={max(2, min(8, int(workers)))}", f"-Xmx{xmx}", "-Xss1g"]
